@@ -154,11 +154,18 @@ Proof.
   split; [simpl; rewrite S; reflexivity|]. exists new. split; [simpl; rewrite L; reflexivity|exact C].
 Qed.
 
+Lemma good_call_views l sc vs : good l (call_views l sc vs).
+Proof.
+  induction vs as [|p rest IH]; simpl; [apply good_raise|].
+  destruct (N.eqb p P_DEFAULT_VIEW); [apply good_ret|].
+  apply good_catch; [apply good_seq; [apply good_hit0|apply good_ret]|].
+  intros k2. apply good_if; [exact IH|apply good_raise].
+Qed.
+
 Lemma good_error_handler ev l sc k : good l (error_handler ev l sc k).
 Proof.
-  unfold error_handler. destruct ev; [|apply good_raise].
-  apply good_catch.
-  - apply neutral_good. apply neutral_frame. apply good_seq; [apply good_hit0|apply good_ret].
+  unfold error_handler. apply good_catch.
+  - apply neutral_good. apply neutral_frame. apply good_call_views.
   - intros k2. apply good_if; apply good_raise.
 Qed.
 
@@ -357,7 +364,7 @@ Definition ex_scn : scn :=
       (Sub false (Scn false [mkFault P_RENDERER K_HTTP 0] [mkReg P_NEWREQ 3] NoSub)).
 
 Example ex_run_with_excview :
-  let '(st, r) := run_top true ex_scn [7; 7] in
+  let '(st, r) := run_top 1 ex_scn [7; 7] in
   r = Ok P_EXCVIEW /\ stk st = [7; 7] /\ length (log st) = 28%nat
   /\ judge ex_scn 0 (log st) = true
   /\ map e_aux (filter (is_pt P_FIN_CB) (lvl_log 0 (log st))) = [P_OVER_IN; P_VIEW]
@@ -365,13 +372,13 @@ Example ex_run_with_excview :
 Proof. vm_compute. repeat split; reflexivity. Qed.
 
 Example ex_run_without_excview :
-  let '(st, r) := run_top false ex_scn [] in r = Ex K_HTTP /\ stk st = [] /\ judge ex_scn 0 (log st) = true.
+  let '(st, r) := run_top 0 ex_scn [] in r = Ex K_HTTP /\ stk st = [] /\ judge ex_scn 0 (log st) = true.
 Proof. vm_compute. repeat split; reflexivity. Qed.
 
 (* the judge is not trivially true: dropping the finished-callback events, or leaving a frame
    behind, is rejected *)
 Example judge_rejects :
-  let '(st, r) := run_top true ex_scn [] in
+  let '(st, r) := run_top 1 ex_scn [] in
   judge ex_scn 0 (filter (fun e => negb (is_pt P_FIN_CB e)) (log st)) = false /\
   judge ex_scn 1 (log st) = false /\
   judge ex_scn 0 (map (fun e => mkEv (e_pt e) (e_lvl e) (e_depth e) false (e_aux e)) (log st)) = false.
